@@ -56,9 +56,13 @@ def to_harness(idx, fam, c, seed):
     big = set(c["big"])
     # spelling of a plain include: relative (3 in 8), absolute, home-relative, absolute with "/./", absolute with "/sub/../", "./relative"
     forms = (lambda f, i: (idx * 11 + f * 3 + i + seed) % 8 if fam in ("sets3", "lists3", "glob3", "glob4") else 0)
-    files = render_disk(c["disk"], c["pats"], big, forms=lambda f, i: forms(f, i) if forms(f, i) <= 5 else 0)
+    # the case's directory: plain, with a blank, non-ASCII, with brackets, with braces.  A path the USER writes with a
+    # bracket is a pattern, so under the last two the directives are spelled relative to the including file only
+    ds = (idx + seed) % 6 if fam in ("sets3", "lists3", "glob3", "glob4") else 0
+    ds = 0 if ds == 5 else ds
+    files = render_disk(c["disk"], c["pats"], big, forms=lambda f, i: (forms(f, i) if forms(f, i) <= 5 else 0) if ds < 3 else (5 if forms(f, i) == 5 else 0))
     root = NAMES[1]
-    hc = {"id": str(idx), "files": files, "fresh": False,
+    hc = {"id": str(idx), "files": files, "fresh": False, "dirstyle": ds,
           "depth": c["lim"] if c["lim"] <= len(c["disk"]) else 0,
           "size": SIZE_LIMIT if big else 0,
           # resolved three times: by a fresh loader, again by the SAME loader (every included file now comes from its cache:
